@@ -354,44 +354,86 @@ Proof.
 Qed.
 
 (* ---------- run head ---------- *)
-Lemma fmp4_run_head_spec : forall isLeading init lead ts,
-  init_wf init = true -> init_supported init = true -> init_timescales_ok init = true ->
-  fmp4_run_head isLeading (Some init) = Ok (lead, ts) ->
-  fsp_ok {| f_isLeading := isLeading; f_init := init; f_leadingTrackID := lead; f_cst := ts; f_procs := None |}.
+Lemma init_good_no_nil : forall i, init_good i -> Forall (fun t => it_codec t <> FNil) i.
 Proof.
-  intros isLeading init lead ts Hwf Hs Ht E. unfold fmp4_run_head in E.
-  destruct (negb isLeading && negb (zlen init =? 1)); [discriminate|].
-  unfold init_wf in Hwf. apply andb_true_iff in Hwf. destruct Hwf as [Hne Hnil].
-  assert (init <> []) as Hne'.
-  { intro; subst. cbn in Hne. discriminate. }
-  assert (Forall (fun t => it_codec t <> FNil) init) as Hnil'.
-  { rewrite forallb_forall in Hnil. apply Forall_forall. intros t Hin. specialize (Hnil t Hin).
-    destruct (it_codec t); congruence. }
-  destruct (fmp4PickLeadingTrack_spec init Hne' Hnil') as [id [Ep Hin]]. rewrite Ep in E. cbn [bind] in E.
-  destruct (_ >? clientMaxTracksPerStream) in E; [discriminate|]. inversion E; subst.
-  constructor; cbn; auto.
-  - apply init_good_of_bools; auto.
-  - intros ? ?; discriminate.
+  intros i H. eapply Forall_impl; [|exact H]. intros t [Hc _] E. rewrite E in Hc. cbn in Hc. contradiction.
 Qed.
 
-Lemma fmp4_run_head_np : forall isLeading init,
-  (match init with Some i => init_wf i = true | None => True end) ->
-  is_panic (fmp4_run_head isLeading init) = false.
+Lemma init_wf_facts : forall init, init_wf init = true ->
+  init <> [] /\ Forall (fun t => it_codec t <> FNil) init.
 Proof.
-  intros isLeading [init|] Hwf; cbn; auto.
-  destruct (negb isLeading && negb (zlen init =? 1)); auto.
-  unfold init_wf in Hwf. apply andb_true_iff in Hwf. destruct Hwf as [Hne Hnil].
-  assert (init <> []) as Hne' by (intro; subst; cbn in Hne; discriminate).
-  assert (Forall (fun t => it_codec t <> FNil) init) as Hnil'.
-  { rewrite forallb_forall in Hnil. apply Forall_forall. intros t Hin. specialize (Hnil t Hin).
-    destruct (it_codec t); congruence. }
-  destruct (fmp4PickLeadingTrack_spec init Hne' Hnil') as [id [-> _]]. cbn [bind].
+  intros init Hwf. unfold init_wf in Hwf. apply andb_true_iff in Hwf. destruct Hwf as [Hne Hnil]. split.
+  - intro; subst. cbn in Hne. discriminate.
+  - rewrite forallb_forall in Hnil. apply Forall_forall. intros t Hin. specialize (Hnil t Hin).
+    destruct (it_codec t); congruence.
+Qed.
+
+(* the repair establishes by itself what the partial theorem has to assume *)
+Lemma fix_filter_good : forall t0 t, fmp4_fix_filter t0 = Ok t -> t <> [] /\ init_good t.
+Proof.
+  intros t0 t E. unfold fmp4_fix_filter in E.
+  destruct (existsb _ t0) eqn:X; [discriminate|].
+  set (f := fun t : init_track => match FromFMP4 (it_codec t) with Some _ => true | None => false end) in *.
+  assert (G : init_good (filter f t0)).
+  { apply Forall_forall. intros x Hin. apply filter_In in Hin. destruct Hin as [Hin Hf]. split.
+    - unfold f in Hf. destruct (FromFMP4 (it_codec x)); congruence.
+    - intro Z0. assert (existsb (fun t => it_timescale t =? 0) t0 = true); [|congruence].
+      apply existsb_exists. exists x. split; auto. apply Z.eqb_eq. auto. }
+  destruct (filter f t0) as [|x r] eqn:F; [discriminate|]. inversion E; subst. split; [discriminate|auto].
+Qed.
+
+Lemma fix_filter_np : forall t0, is_panic (fmp4_fix_filter t0) = false.
+Proof. intros. unfold fmp4_fix_filter. destruct (existsb _ t0); auto. destruct (filter _ t0); auto. Qed.
+
+Lemma fix_filter_noof : forall t0, is_oof (fmp4_fix_filter t0) = false.
+Proof. intros. unfold fmp4_fix_filter. destruct (existsb _ t0); auto. destruct (filter _ t0); auto. Qed.
+
+(* what the head needs from the init: given by the repair, or assumed for the pinned tree *)
+Definition head_hyp (repaired : bool) (init0 : list init_track) : Prop :=
+  repaired = true \/ (init_wf init0 = true /\ init_supported init0 = true /\ init_timescales_ok init0 = true).
+
+Lemma effective_init : forall repaired init0 tracks,
+  head_hyp repaired init0 ->
+  (if repaired then fmp4_fix_filter init0 else Ok init0) = Ok tracks ->
+  tracks <> [] /\ init_good tracks.
+Proof.
+  intros repaired init0 tracks H E. destruct repaired.
+  - apply fix_filter_good in E. auto.
+  - inversion E; subst. destruct H as [H|[Hwf [Hs Ht]]]; [discriminate|].
+    split; [apply init_wf_facts; auto|apply init_good_of_bools; auto].
+Qed.
+
+Lemma fmp4_run_head_spec : forall repaired isLeading init0 lead ts init,
+  head_hyp repaired init0 ->
+  fmp4_run_head repaired isLeading (Some init0) = Ok (lead, ts, init) ->
+  fsp_ok {| f_isLeading := isLeading; f_init := init; f_leadingTrackID := lead; f_cst := ts; f_procs := None |}.
+Proof.
+  intros repaired isLeading init0 lead ts init H E. unfold fmp4_run_head in E.
+  destruct (negb isLeading && negb (zlen init0 =? 1)); [discriminate|].
+  apply bind_ok in E. destruct E as [tracks [Et E]].
+  destruct (effective_init _ _ _ H Et) as [Hne Hg].
+  destruct (fmp4PickLeadingTrack_spec tracks Hne (init_good_no_nil _ Hg)) as [id [Ep Hin]].
+  rewrite Ep in E. cbn [bind] in E.
+  destruct (_ >? clientMaxTracksPerStream) in E; [discriminate|]. inversion E; subst.
+  constructor; cbn; auto. intros ? ?; discriminate.
+Qed.
+
+Lemma fmp4_run_head_np : forall repaired isLeading init,
+  (match init with Some i => head_hyp repaired i | None => True end) ->
+  is_panic (fmp4_run_head repaired isLeading init) = false.
+Proof.
+  intros repaired isLeading [init0|] H; cbn; auto.
+  destruct (negb isLeading && negb (zlen init0 =? 1)); auto.
+  apply bind_np; [destruct repaired; [apply fix_filter_np|reflexivity]|].
+  intros tracks Et. destruct (effective_init _ _ _ H Et) as [Hne Hg].
+  destruct (fmp4PickLeadingTrack_spec tracks Hne (init_good_no_nil _ Hg)) as [id [-> _]]. cbn [bind].
   destruct (_ >? clientMaxTracksPerStream); auto.
 Qed.
 
-Lemma fmp4_run_head_noof : forall isLeading init, is_oof (fmp4_run_head isLeading init) = false.
+Lemma fmp4_run_head_noof : forall repaired isLeading init, is_oof (fmp4_run_head repaired isLeading init) = false.
 Proof.
-  intros isLeading [init|]; cbn; auto.
+  intros repaired isLeading [init|]; cbn; auto.
   destruct (negb isLeading && negb (zlen init =? 1)); auto.
+  apply bind_noof; [destruct repaired; [apply fix_filter_noof|reflexivity]|]. intros.
   apply bind_noof; [apply fmp4PickLeadingTrack_noof|]. intros. destruct (_ >? clientMaxTracksPerStream); auto.
 Qed.
